@@ -159,3 +159,14 @@ def base_name_lt(a, adir, b, bdir):
     c1 = a[m] if m < la else (47 if adir else 0)
     c2 = b[m] if m < lb else (47 if bdir else 0)
     return differs or (common and c1 < c2)
+
+
+def file_type(m):
+    """stat.S_IFMT(m) >> 12"""
+    return (m // 4096) % 16
+
+
+def clean_mode(m):
+    """dulwich.index.cleanup_mode: the mode git stores for a work tree object with st_mode m"""
+    t = file_type(m)
+    return 40960 if t == 10 else (16384 if t == 4 else (57344 if t == 14 else (33261 if (m // 64) % 2 == 1 else 33188)))
